@@ -1645,10 +1645,17 @@ where
                     });
                 }
 
-                entry.size = new_entry_size;
-                let entry_ptr = EntryPtr::new(entry as *mut Entry<K, V>);
-                self.current_size += diff;
+                let mut entry_ptr = EntryPtr::new(entry as *mut Entry<K, V>);
                 self.touch_ptr(entry_ptr);
+
+                // If the maximum size is close to usize::MAX, the current size
+                // plus the growth may not be representable. In that case, make
+                // room before accounting for the growth. The mutated entry is
+                // most-recently-used and fits on its own, so it stays.
+
+                self.eject_to_target(usize::MAX - diff);
+                unsafe { entry_ptr.get_mut() }.size = new_entry_size;
+                self.current_size += diff;
                 self.eject_to_target(max_size);
             }
             else {
